@@ -22,7 +22,9 @@ META = {
              'interface) on tests/mdib_two_mds.xml (quick) and 70041_MDIB_Final.xml (thorough), sync and async '
              'subscription manager; non-trivial = the program applied >= 2 different transaction kinds and >= 1 of '
              '{descriptor create/delete/re-create, context association change, multi}; distinct by program'),
-    'assumptions': ['notifications are processed synchronously (RequestDispatcher instead of the deferred dispatcher)',
+    'assumptions': ['in two of three cases notifications are processed in the delivering thread (RequestDispatcher); in the '
+                    'third the consumer uses its default deferred dispatcher and the comparison waits until its worker '
+                    'has handled everything queued so far',
                     'the tutorial AlertSystemStateMaintainer worker is parked (its periodic self check would commit '
                     'transactions at wall-clock times)'],
 }
@@ -54,14 +56,15 @@ def entity_snapshot(mdib) -> dict:
 
 class PairRunner:
     def __init__(self, fixture: str, async_mgr: bool = False, prop: str = P, check_notifications: bool = True,
-                 instance_id: int | None = 1):
+                 instance_id: int | None = 1, deferred: bool = False):
         from sdc11073 import observableproperties as properties
         park_role_workers()
         L.reset_network()
         self.prop = prop
         self.inv = MP.inventory(fixture)
         self.world = W.World(W.fixture(fixture), async_mgr=async_mgr, instance_id=instance_id)
-        self.consumer, self.cmdib = self.world.add_consumer()
+        self.deferred = deferred
+        self.consumer, self.cmdib = self.world.add_consumer(deferred=deferred)
         self.interp = MP.Interp(self.world.mdib, self.inv, provider=self.world.provider)
         self.fired = []
         self.check_notifications = check_notifications
@@ -72,6 +75,18 @@ class PairRunner:
 
     def close(self):
         self.world.close()
+
+    def drain(self):
+        """With the library's default (deferred) dispatcher notifications are handled by a worker thread: wait until it
+        has handled everything that was queued before this call (an end marker travels through the same queue)."""
+        if not self.deferred:
+            return
+        import threading
+        done = threading.Event()
+        dispatcher = self.consumer._services_dispatcher  # noqa: SLF001
+        dispatcher._queue.put((lambda _request: done.set(), None, 'vf-drain'))  # noqa: SLF001
+        if not done.wait(30):
+            raise R.HarnessError('the deferred dispatcher of the consumer did not drain within 30 s')
 
     # ------------------------------------------------------------------------------------------- oracles
     def mirror_findings(self, op):
@@ -159,6 +174,7 @@ class PairRunner:
             if not R.exc_in_library(ex):
                 raise
             info = {'skipped': False, 'raised': ex}
+        self.drain()
         findings = []
         if not info.get('skipped') and 'raised' not in info:
             kind = op[0] if op[0] != 'state' else f'state:{op[1]}'
@@ -176,7 +192,8 @@ class PairRunner:
 
 def run_program(case, prop=P, stop_at_first=True, check_notifications=True):
     r = PairRunner(case['fixture'], async_mgr=case.get('async', False), prop=prop,
-                   check_notifications=check_notifications, instance_id=case.get('instance_id', 1))
+                   check_notifications=check_notifications, instance_id=case.get('instance_id', 1),
+                   deferred=case.get('deferred', False))
     findings = []
     raised = set()
     try:
@@ -198,7 +215,7 @@ def run_program(case, prop=P, stop_at_first=True, check_notifications=True):
 def case_fn(ctx, case, prop=P):
     findings, nontrivial, kinds, raised = run_program(case, prop=prop)
     ctx.case(case, nontrivial, 'prog', classes=tuple(kinds) + (('async',) if case.get('async') else ('sync',)) + (
-        f'instance_id={case.get("instance_id", 1)}',))
+        f'instance_id={case.get("instance_id", 1)}', 'dispatcher=' + ('deferred' if case.get('deferred') else 'immediate')))
     for sig in raised:
         ctx.count(f'op-raised/{sig}')
     return findings
@@ -231,8 +248,8 @@ def shard_programs(ctx, fixture, n, max_ops, prop=P, index_bias=False, async_mgr
         if biased is not None:
             prog = st.tuples(prog, st.lists(biased, min_size=1, max_size=4), st.integers(0, 10)).map(
                 lambda t: (t[0][:t[2]] + t[1] + t[0][t[2]:])[:max_ops + 4])
-    strat = st.tuples(prog, st.sampled_from([1, 1, 0, None, 4294967295])).map(
-        lambda t: {'fixture': fixture, 'prog': t[0], 'async': async_mgr, 'instance_id': t[1]})
+    strat = st.tuples(prog, st.sampled_from([1, 1, 0, None, 4294967295]), st.sampled_from([False, False, True])).map(
+        lambda t: {'fixture': fixture, 'prog': t[0], 'async': async_mgr, 'instance_id': t[1], 'deferred': t[2]})
     R.hyp_campaign(ctx, f'prog:{fixture}:{"async" if async_mgr else "sync"}', strat,
                    lambda c: case_fn(ctx, c, prop), n, shrink_s=30 if ctx.tier == 'quick' else 200)
 
